@@ -132,6 +132,18 @@ static void emit_dom(const Vector & l, const Vector & r) {
     Line o; o << "C12" << "dom" << (size_t)l.size(); putVec(o, l); putVec(o, r); o << "|" << dominates(l, r); o.emit();
 }
 
+// findBestAtPoint / findBestAtSimplexCorner / extractBestAtPoint on a list with ties
+static void emit_best(const VList & in, size_t S, const Vector & point, size_t corner, size_t bound) {
+    if (in.empty()) return;
+    double v1 = 0, v2 = 0;
+    const size_t i1 = findBestAtPoint(point, in.begin(), in.end(), &v1) - in.begin();
+    const size_t i2 = findBestAtSimplexCorner(corner, in.begin(), in.end(), &v2) - in.begin();
+    VList arr = in; if (bound > arr.size()) bound = arr.size();
+    const size_t nb = extractBestAtPoint(point, arr.begin(), arr.begin() + bound, arr.end()) - arr.begin();
+    Line o; o << "C12" << "best" << S << (size_t)in.size(); putVecs(o, in); putVec(o, point); o << corner << bound;
+    o << "|" << i1 << v1 << i2 << v2 << nb; putVecs(o, arr); o.emit();
+}
+
 static void emit_ed(const VList & in, size_t S) {
     VList arr = in;
     auto it = extractDominated(arr.begin(), arr.end());
@@ -205,7 +217,7 @@ static void emit_prune(const VList & in, size_t S) {
     for (size_t i = 0; i < e; ++i) {
         VList others; for (size_t j = 0; j < e; ++j) if (j != i) others.push_back(arr[j]);
         Cert c; c.idx = i;
-        if (!others.empty()) { c.b = witness(others, arr[i]); if (!c.b) c.lambda = farkas(others, arr[i]); }
+        if (!others.empty()) { c.b = witness(others, arr[i]); c.lambda = farkas(others, arr[i]); }
         need.push_back(std::move(c));
     }
     putCerts(o, need);
@@ -312,7 +324,8 @@ static void fixed_case(long idx) {
         emit_ed(v, 2); std::reverse(v.begin(), v.end()); emit_ed(v, 2); emit_prune(v, 2); break; }
     case 4: { // ties at a corner, lexicographic tie-break decides
         VList v{vec({1, 0, 0}), vec({1, -1, 1}), vec({1, 1, -1}), vec({0, 2, 2}), vec({1, 0.5, -2})};
-        emit_ed(v, 3); emit_prune(v, 3); break; }
+        emit_ed(v, 3); emit_prune(v, 3); emit_best(v, 3, vec({1, 0, 0}), 0, 0); emit_best(v, 3, vec({0.5, 0.25, 0.25}), 1, 2);
+        VList t{vec({1, 0, 0}), vec({1, 1, -1}), vec({1, 1, -1}), vec({1, 0, 0})}; emit_best(t, 3, vec({1, 0, 0}), 0, 1); break; }
     case 5: { // LPInterpolation, compatible set = first two of three stored points (weights belong to slots 3 and 4)
         Surface s = q3; s.ubV.first = {vec({0.25, 0.75, 0}), vec({0.75, 0.25, 0}), vec({0.25, 0.25, 0.5})}; s.ubV.second = {2.0, 1.0, 0.0};
         emit_interp("lpi", vec({0.5, 0.5, 0}), s); break; }
@@ -366,7 +379,8 @@ void verif::verif_case(Rng & rng, long idx, const std::string & tier) {
         size_t n = rng.coin(1, 12) ? rng.below(3) : 1 + rng.below(nmax);
         int shape; VList vs = genVectors(rng, S, n, shape);
         std::printf("#stat shape%d 1\n#stat dim%zu 1\n", shape, S);
-        if (kind < 2) { emit_ed(vs, S); if (n >= 2) emit_dom(vs[rng.below(n)], vs[rng.below(n)]); }
+        if (kind < 2) { emit_ed(vs, S); if (n >= 2) emit_dom(vs[rng.below(n)], vs[rng.below(n)]);
+                        if (n) { const size_t c = rng.below(S); emit_best(vs, S, rng.coin() ? Vector(Vector::Unit(S, c)) : genBelief(rng, S, 3, 4), c, rng.below(n + 1)); } }
         else if (kind < 4) { size_t k = rng.below(n + 1); emit_edi(VList(vs.begin(), vs.begin() + k), VList(vs.begin() + k, vs.end()), S);
                              // the documented use: old part already pruned
                              VList o(vs.begin(), vs.begin() + k); o.erase(extractDominated(o.begin(), o.end()), o.end());
@@ -376,6 +390,13 @@ void verif::verif_case(Rng & rng, long idx, const std::string & tier) {
         const size_t S = 1 + rng.below(5), A = 1 + rng.below(3), N = rng.coin(1, 8) ? rng.below(2) : 1 + rng.below(thorough ? 10 : 6);
         const Vector query = rng.coin(1, 10) ? Vector(Vector::Unit(S, rng.below(S))) : genBelief(rng, S, 4, rng.coin() ? 0 : 3);
         int shape; Surface sf = genSurface(rng, S, A, N, query, shape);
+        if (S >= 2 && rng.coin(1, 6)) {   // coordinates straddling the zero tolerance (2^-21 < 1e-6 < 2^-19), mass taken from the largest entry
+            auto tweak = [&](Vector & b) { Eigen::Index mx; b.maxCoeff(&mx); size_t s = rng.below(S); if ((Eigen::Index)s == mx) return;
+                                           const double t = rng.coin() ? 0x1p-21 : 0x1p-19; if (b[s] == 0.0) { b[s] = t; b[mx] -= t; } };
+            Vector q2 = query; tweak(q2); for (auto & p : sf.ubV.first) if (rng.coin(1, 3)) tweak(p);
+            std::puts("#stat tiny_coordinates 1");
+            emit_interp("lpi", q2, sf); if (N > 0 || sawRepaired()) emit_interp("saw", q2, sf);
+        }
         std::printf("#stat ishape%d 1\n#stat idim%zu 1\n#stat npts%zu 1\n", shape, S, N);
         // the as-found sawtooth indexes an empty point set when basicV == v; that defect has its own fixed case (12),
         // so random cases with an empty point set go to sawtooth only when the source is repaired
